@@ -217,13 +217,9 @@ func (e *Eng) evalBool(x Expr, env *Env, cur, old *State, c *Clause) (res string
 			if c != nil {
 				lbl = fmt.Sprintf("%s (line %d)", c.Label, c.Line)
 			}
-			if msg := fmt.Sprint(r); strings.HasPrefix(msg, "unknown identifier") {
-				// the clause names a variable the function does not (any longer) have: it cannot hold as an
-				// obligation and says nothing as an assumption
-				e.note("contract clause %s: %v: the clause is undischargeable until the contract and the code agree again", lbl, r)
-				res = e.sc.havoc("unevaluable", "Bool")
-				return
-			}
+			// (a clause that names a variable the function no longer has is reported as an engine ERROR, exit 2:
+			// the contract and the code are out of step and nothing is decided; a harmless rename of a local must
+			// not become a VIOLATION)
 			e.errf("contract clause %s: %v", lbl, r)
 			res = "false"
 		}
